@@ -117,12 +117,12 @@ Lemma astep_no_precond a op : aprecond a op = false -> astep a op true = astep a
 Proof. intros H. unfold astep. rewrite H. reflexivity. Qed.
 
 Lemma acheck_sound new : forall p o s a,
-  R new s a -> acheck p a = true -> Forall not_bad (states new s (run new p o s)).
+  R new s a -> acheck p a = true -> Forall not_bad (states new s (run_proto new p o s)).
 Proof.
   induction p as [|[op h] p IH]; intros o s a HR HC; cbn [acheck] in HC;
     apply andb_true_iff in HC; destruct HC as [HB HC]; apply negb_true_iff in HB.
-  - cbn [run states]. constructor; [apply (R_bad _ _ _ HR HB) | constructor].
-  - cbn [run]. destruct (next o) as [d o'] eqn:En. cbn [states].
+  - cbn [run_proto states]. constructor; [apply (R_bad _ _ _ HR HB) | constructor].
+  - cbn [run_proto]. destruct (next o) as [d o'] eqn:En. cbn [states].
     constructor; [apply (R_bad _ _ _ HR HB)|].
     pose proof (R_step new s a op d HR) as HR'.
     pose proof (R_precond new s a op HR) as HP.
@@ -149,10 +149,10 @@ Proof.
   cbn [run_cleanup next fs_run fold_left]. apply IH. apply (R_step new s a op None HR).
 Qed.
 
-Lemma afinal_ok_R new : forall p s a, R new s a -> R new (fs_run new s (run new p [] s)) (afinal_ok p a).
+Lemma afinal_ok_R new : forall p s a, R new s a -> R new (fs_run new s (run_proto new p [] s)) (afinal_ok p a).
 Proof.
   induction p as [|[op h] p IH]; intros s a HR; [exact HR|].
-  cbn [run next afinal_ok]. pose proof (R_step new s a op None HR) as HR'. cbn [dev_ok] in HR'.
+  cbn [run_proto next afinal_ok]. pose proof (R_step new s a op None HR) as HR'. cbn [dev_ok] in HR'.
   pose proof (R_precond new s a op HR) as HP. cbn [mk_ev eok] in *. rewrite HP in HR' |- *.
   destruct (aprecond a op) eqn:EP; cbn [fs_run fold_left].
   - apply IH. exact HR'.
@@ -170,7 +170,7 @@ Definition state_safe (old new : bytes) (s : fs) : Prop :=
 
 Definition crash_safe (p : protocol) : Prop :=
   forall (old new : bytes) (o : oracle),
-    let evs := run new p o fs0 in
+    let evs := run_proto new p o fs0 in
     (* every crash point, every pattern of failing calls *)
     Forall (state_safe old new) (states new fs0 evs) /\
     (* a rename only ever happens after an un-failed write and fsync made exactly the new snapshot durable *)
@@ -207,9 +207,9 @@ Proof.
     apply good_inode_spec in HG. tauto.
   - intros ->. subst evs.
     pose proof (afinal_ok_R new p fs0 afs0 (R0 new)) as HR.
-    assert (Hc : cur_new (fs_run new fs0 (run new p [] fs0)) = true) by (rewrite (R_cur _ _ _ HR); exact HF).
-    assert (Hin : In (fs_run new fs0 (run new p [] fs0)) (states new fs0 (run new p [] fs0))).
-    { pose proof (in_states_prefix new (run new p [] fs0) [] fs0) as H. rewrite app_nil_r in H. exact H. }
+    assert (Hc : cur_new (fs_run new fs0 (run_proto new p [] fs0)) = true) by (rewrite (R_cur _ _ _ HR); exact HF).
+    assert (Hin : In (fs_run new fs0 (run_proto new p [] fs0)) (states new fs0 (run_proto new p [] fs0))).
+    { pose proof (in_states_prefix new (run_proto new p [] fs0) [] fs0) as H. rewrite app_nil_r in H. exact H. }
     rewrite Forall_forall in HNB, HI. specialize (HNB _ Hin). specialize (HI _ Hin).
     unfold reader_sees. rewrite Hc. apply (HI HNB Hc).
 Qed.
